@@ -559,6 +559,26 @@ D2_CASES = [
      "chunks": [[[2, 10, 0, 2, 3, 0], [0, 1, 0, 1, 1, 0]]], "label": "D2:cload-last-chrom"},
 ]
 
+# fixed CLI corpus: rejection, the D2 edge in the middle of the genome and at its end, one-based input ending at L
+CLI_CORPUS = [
+    {"fn": "cload_pairs", "widths": [[10, 10], [10, 10, 5], [7]], "opts": {"one_based": 0, "tril": "reflect", "ideal_b": None, "header": False},
+     "chunks": [[[0, 3, 0, 1, 4, 0], [1, 26, 0, 0, 1, 0]], [[2, 6, 0, 2, 0, 0]]], "label": "cli:cload_pairs:out"},
+    {"fn": "cload_pairs", "widths": [[10, 10], [10, 10, 5], [7]], "opts": {"one_based": 1, "tril": "reflect", "ideal_b": None, "header": True},
+     "chunks": [[[1, 25, 0, 0, 20, 0], [2, 7, 0, 2, 1, 0]], [[0, 1, 0, 0, 1, 0], [2, 7, 0, 2, 1, 0]]], "label": "cli:cload_pairs:valid"},
+    {"fn": "cload_pairs", "widths": [[10, 10], [10, 10, 5], [7]], "opts": {"one_based": 0, "tril": "reflect", "ideal_b": None, "header": True},
+     "chunks": [[[0, 20, 0, 0, 3, 0], [2, 6, 0, 0, 0, 0]]], "label": "cli:cload_pairs:edge"},
+    {"fn": "load_bg2", "widths": [[10, 10], [10, 10, 5], [10]], "opts": {"one_based": 0, "tril": "reflect", "ideal_b": 10, "header": False},
+     "chunks": [[[0, 20, 30, 0, 0, 10], [1, 10, 20, 2, 0, 10]]], "values": [[3, 4]], "label": "cli:load_bg2:edge"},
+    {"fn": "load_bg2", "widths": [[10, 10], [10, 10, 5], [10]], "opts": {"one_based": 0, "tril": "reflect", "ideal_b": 10, "header": False},
+     "chunks": [[[2, 10, 20, 0, 0, 10]], [[1, 10, 20, 2, 0, 10]]], "values": [[3], [4]], "label": "cli:load_bg2:edge"},
+    {"fn": "load_bg2", "widths": [[3, 3, 2], [4, 4], [5]], "opts": {"one_based": 1, "tril": "drop", "ideal_b": None, "header": False},
+     "chunks": [[[0, 1, 3, 1, 5, 8], [1, 5, 8, 0, 1, 3], [2, 5, 5, 2, 1, 5]], [[2, 6, 6, 0, 1, 3]]], "values": [[3, 4, 5], [6]], "label": "cli:load_bg2:out"},
+    {"fn": "load_coo", "widths": [[3, 3, 2], [4, 4], [5]], "opts": {"one_based": 1, "tril": "reflect", "ideal_b": None, "header": False},
+     "chunks": [[[1, 1, 0, 0, 5], [6, 2, 0, 0, 7]], [[3, 6, 0, 0, 2], [2, 6, 0, 0, 1]]], "label": "cli:load_coo:valid"},
+    {"fn": "load_coo", "widths": [[3, 3, 2], [4, 4], [5]], "opts": {"one_based": 0, "tril": None, "ideal_b": None, "header": False},
+     "chunks": [[[1, 0, 0, 0, 5], [0, 1, 0, 0, 7], [5, 5, 0, 0, 1]]], "label": "cli:load_coo:valid"},
+]
+
 
 # ------------------------------------------------------------------ judging one case
 def judge(ctx, case, impl, model):
@@ -570,7 +590,7 @@ def judge(ctx, case, impl, model):
     rec = {k: case[k] for k in ("fn", "widths", "opts", "chunks") if k in case}
     if "values" in case:
         rec["values"] = case["values"]
-    if isinstance(impl, str):       # crash / timeout of the whole case
+    if isinstance(impl, str) and not impl.startswith("exit:"):       # crash / timeout of the whole case
         ctx.case(rec, kind=fn + ":" + impl.split(":")[0])
         ctx.compare(fn, rec, impl, "a result")
         ctx.fail(rec, {"implementation": impl}, None)
@@ -687,7 +707,7 @@ def run(ctx):
         cases += gen_pixel_cases(rng, widths, 8 if thorough else 3)
         cases += gen_cli_cases(rng, widths, (6 if thorough else 2) if label == "corpus" else (2 if thorough else (1 if rng.random() < 0.5 else 0)))
         per_table.setdefault(canon_w(widths), [widths, []])[1].extend(cases)
-    for case in D2_CASES:
+    for case in D2_CASES + CLI_CORPUS:
         per_table.setdefault(canon_w(case["widths"]), [case["widths"], []])[1].append(case)
     plan = list(per_table.values())
 
